@@ -268,7 +268,7 @@ fn gen_attrs(ch: &mut Ch, thorough: bool) -> Option<Case> {
 
 /// Debug / Default attribute flavours
 fn gen_misc(ch: &mut Ch, _thorough: bool) -> Option<Case> {
-    let cases: [(&[&str], &str); 31] = [
+    let cases: [(&[&str], &str); 34] = [
         (&["Debug"], "pub struct X<T>(#[debug(ignore)] pub T, pub Option<T>);"),
         (&["Debug"], "pub struct X<T> { #[debug(transparent)] pub a: Vec<T>, pub b: u8 }"),
         (&["Debug"], "pub enum X<'a, T> { A(#[debug(ignore)] &'a T), B { #[debug(transparent)] x: T }, C }"),
@@ -302,6 +302,10 @@ fn gen_misc(ch: &mut Ch, _thorough: bool) -> Option<Case> {
         (&["Clone", "Debug", "Default", "Ord", "PartialOrd", "Eq", "PartialEq", "Hash"], "pub struct X<T> { pub _marker: ::core::marker::PhantomData<T>, #[ord(by = |a, b| ::core::cmp::Ord::cmp(a, b))] #[hash(by = |a: &u8, s| ::core::hash::Hash::hash(a, s))] pub _y: u8 }"),
         (&["Add", "SubAssign", "Neg", "Clone"], "pub struct X { pub _a: i8, pub __b: i8 }"),
         (&["Ord", "PartialOrd", "Eq", "PartialEq", "Hash", "Debug"], "pub enum X { A { #[ord(key = $ + 1)] _k: u8, #[debug(ignore)] __state: u8 }, B(u8) }"),
+        // `Self` inside a key expression
+        (&["Eq", "PartialEq", "Hash"], "pub struct X(#[eq(key = ::core::mem::size_of::<Self>() as u64 + $.to_bits())] pub f64, pub u8);"),
+        (&["Ord", "PartialOrd", "Eq", "PartialEq", "Hash"], "pub struct X<T>(#[ord(key = (::core::mem::size_of::<Self>(), $.len()))] pub Vec<T>, pub u8);"),
+        (&["Eq", "PartialEq"], "pub enum X<T> { A(#[eq(key = ::core::mem::size_of::<Option<Self>>() + $.len())] Vec<T>), B }"),
     ];
     let (list, item) = *ch.of(&cases);
     let entry = *ch.of(&Entry::BOTH);
